@@ -192,7 +192,8 @@ fn gen_well(rng: &mut Rng, func: &str, vg: &ValGen, next_node: &mut usize) -> Ve
         "concat" => { let n = rng.below(5); (0..n).map(|_| gen_list(rng, vg)).collect() }
         "is-empty" | "length" => vec![gen_list(rng, vg)],
         "join" => {
-            let mut a = vec![gen_list(rng, vg)];
+            // lists of strings with empty elements in every position (separators around empty pieces)
+            let mut a = if rng.chance(50) { let n = rng.range(2, 5); vec![GV::List((0..n).map(|_| GV::Str(rng.pick(&["", "", "a", "b", "é"][..]).to_string())).collect())] } else { vec![gen_list(rng, vg)] };
             if rng.chance(60) { a.push(GV::Str(rng.pick(&[", ", "", "-", "日", "{}", "\n"][..]).to_string())); }
             a
         }
